@@ -1067,7 +1067,7 @@ Definition no_om_exemplars (f : family) : Prop :=
   Forall (fun m => om_ex (m_ex m) = [] /\ Forall (fun b => om_ex (bk_ex b) = []) (m_b m)) (f_metrics f).
 
 Lemma flat_map_ext_in : forall {A B} (f g : A -> list B) l, (forall a, In a l -> f a = g a) -> flat_map f l = flat_map g l.
-Proof. induction l as [|a l IH]; simpl; intros H; auto. rewrite (H a) by now left. rewrite IH; auto. intros b Hb. apply H. now right. Qed.
+Proof. induction l as [|a l IH]; simpl; intros H; auto. rewrite (H a) by now left. f_equal. apply IH. intros b Hb. apply H. now right. Qed.
 
 Lemma om_series_agree_text : forall (O : oracles) (o : opts) (f : family),
   o_typeunit o = false -> o_created o = false -> no_om_exemplars f ->
